@@ -28,7 +28,7 @@ class DVECTLIST(ctypes.Structure):
     DVECTLIST data structure
     """
     _fields_ = [
-        ("dvector", ctypes.POINTER(ctypes.POINTER(vect.DVECTOR))),
+        ("d", ctypes.POINTER(ctypes.POINTER(vect.DVECTOR))),
         ("size", ctypes.c_size_t)]
 
     def __repr__(self):
@@ -97,7 +97,7 @@ def dvector_list_tolist(dvl):
     """
     lsts = []
     for i in range(dvl[0].size):
-        lsts.append(vect.dvector_tolist(dvl[0].dvector[i].contents))
+        lsts.append(vect.dvector_tolist(dvl[0].d[i].contents))
     return lsts
 
 
@@ -187,7 +187,7 @@ class DVectorList:
         Returns:
             DVECTORLIST : The pointer to the data.
         """
-        return self.dvl[0].dvector
+        return self.dvl[0].d
 
     def append(self, v_lst):
         """
@@ -232,4 +232,4 @@ class DVectorList:
         Print the double vector list for debugging purposes.
         """
         for i in range(self.dvl[0].size):
-            vect.print_dvector(self.dvl[0].dvector[i].contents)
+            vect.print_dvector(self.dvl[0].d[i].contents)
